@@ -362,7 +362,13 @@ def F(name, *sorts):
     return z3.Function(name, *sorts)
 
 
-CLASS_SIZES = {"SectionHeader": (40, 64), "ProgramHeader": (32, 56), "CompressionHeader": (12, 24)}
+CLASS_SIZES = {"SectionHeader": (40, 64), "ProgramHeader": (32, 56), "CompressionHeader": (12, 24), "SysVHashHeader": (8, 8),
+               "GnuHashHeader": (16, 16), "Symbol": (16, 24), "Dyn": (8, 16), "VersionIndex": (2, 2)}
+PHDR_FIELDS = [("p_type", 32), ("p_offset", 64), ("p_vaddr", 64), ("p_paddr", 64), ("p_filesz", 64), ("p_memsz", 64),
+               ("p_flags", 32), ("p_align", 64)]
+SYSV_FIELDS = [("nbucket", 32), ("nchain", 32)]
+GNUH_FIELDS = [("nbucket", 32), ("table_start_idx", 32), ("nbloom", 32), ("nshift", 32)]
+FIELDS_OF = {}
 SHDR_FIELDS = [("sh_name", 32), ("sh_type", 32), ("sh_flags", 64), ("sh_addr", 64), ("sh_offset", 64), ("sh_size", 64),
                ("sh_link", 32), ("sh_info", 32), ("sh_addralign", 64), ("sh_entsize", 64)]
 CHDR_FIELDS = [("ch_type", 32), ("ch_size", 64), ("ch_addralign", 64)]
@@ -401,6 +407,146 @@ def s_parse_at(tyname, fields):
             vals.append(IntV(fn(absf)))
         return Enum("Ok", [Agg(vals, tyname)], "Result")
     return h
+
+
+def record_at(tyname, fields, ci, absf):
+    vals = []
+    for (fname, w) in fields:
+        fn = F(f"{tyname}.{fname}@{'32' if ci == 0 else '64'}", BV64, z3.BitVecSort(w))
+        vals.append(IntV(fn(absf)))
+    return Agg(vals, tyname)
+
+
+def closure_fn(prog, text):
+    m = re.search(r"\{closure@[^}]*\}", text)
+    if not m:
+        raise Unsupported("no closure in " + text)
+    tag = m.group(0)
+    for f in prog.fns:
+        if "{closure#" in f.path and f.params and tag in f.params[0][1]:
+            return f
+    raise Unsupported("closure body not found: " + tag)
+
+
+class VecIter:
+    """std::slice::Iter over a Collected vec"""
+
+    def __init__(self, vec):
+        self.vec = vec
+        self.idx = 0
+
+
+def vec_len(v):
+    if v.tyname == "empty":
+        return bv(0)
+    return z3.UDiv(v.sl.len, bv(CLASS_SIZES[v.tyname][class_index(v.cls)]))
+
+
+def vec_elem(ex, v, i):
+    """element i (z3 BV64) of a Collected vec: the ABI record at sl.file_pos + i*entsize"""
+    ci = class_index(v.cls)
+    es = CLASS_SIZES[v.tyname][ci]
+    fields = {"SectionHeader": SHDR_FIELDS, "ProgramHeader": PHDR_FIELDS}[v.tyname]
+    return record_at(v.tyname, fields, ci, v.sl.file_pos() + i * es)
+
+
+def iter_next(ex, it_ref):
+    it = it_ref.load() if isinstance(it_ref, Ref) else it_ref
+    if isinstance(it, VecIter):
+        n = vec_len(it.vec)
+        k = ex.ctx.choose([("some", z3.ULT(bv(it.idx), n)), ("none", z3.UGE(bv(it.idx), n))])
+        if k == 1:
+            return Enum("None", [], "Option")
+        e = vec_elem(ex, it.vec, bv(it.idx))
+        it.idx += 1
+        return Enum("Some", [Ref([e], 0)], "Option")
+    if isinstance(it, Agg) and it.ty == "ParsingIterator":
+        fn = ex.prog.find(("ParsingIterator", "next"))
+        return ex.call_fn(fn, [it_ref])
+    raise Unsupported(f"next on {it!r}")
+
+
+def s_iter_next(ex, callee, args, dest_ty):
+    return iter_next(ex, args[0])
+
+
+def s_iter_find(ex, callee, args, dest_ty):
+    it_ref, clos = args
+    cf = closure_fn(ex.prog, callee)
+    for _ in range(8):
+        o = iter_next(ex, it_ref)
+        if o.variant == "None":
+            return o
+        item = o.f[0]
+        # closure takes &Item (for slice::Iter the item is itself a reference)
+        arg = item if isinstance(item, Ref) and "&&" in cf.params[1][1] else item
+        if "&&" in cf.params[1][1]:
+            arg = Ref([item], 0)
+        elif not isinstance(item, Ref):
+            arg = Ref([item], 0)
+        r = ex.call_fn(cf, [Ref([clos], 0), arg])
+        k = ex.ctx.choose([("match", r), ("skip", z3.Not(r))])
+        if k == 0:
+            return Enum("Some", [item], "Option")
+    raise Unsupported("Iterator::find: more than 8 items (table bound missing)")
+
+
+def s_identity(ex, callee, args, dest_ty):
+    return args[0]
+
+
+def s_u8slice_is_empty(ex, callee, args, dest_ty):
+    sl = as_slice(args[0])
+    k = ex.ctx.choose([("empty", sl.len == 0), ("nonempty", sl.len != 0)])
+    return z3.BoolVal(k == 0)
+
+
+def s_vec_is_empty(ex, callee, args, dest_ty):
+    v = args[0].load() if isinstance(args[0], Ref) else args[0]
+    n = vec_len(v)
+    k = ex.ctx.choose([("empty", n == 0), ("nonempty", n != 0)])
+    return z3.BoolVal(k == 0)
+
+
+def s_vec_deref(ex, callee, args, dest_ty):
+    return args[0].load() if isinstance(args[0], Ref) else args[0]
+
+
+def s_tslice_iter(ex, callee, args, dest_ty):
+    v = args[0].load() if isinstance(args[0], Ref) else args[0]
+    return VecIter(v)
+
+
+def s_tslice_get(ex, callee, args, dest_ty):
+    v = args[0].load() if isinstance(args[0], Ref) else args[0]
+    i = args[1].e
+    n = vec_len(v)
+    k = ex.ctx.choose([("some", z3.ULT(i, n)), ("none", z3.UGE(i, n))])
+    if k == 1:
+        return Enum("None", [], "Option")
+    return Enum("Some", [Ref([vec_elem(ex, v, i)], 0)], "Option")
+
+
+def s_vec_index(ex, callee, args, dest_ty):
+    v = args[0].load() if isinstance(args[0], Ref) else args[0]
+    i = args[1].e
+    n = vec_len(v)
+    k = ex.ctx.choose([("ok", z3.ULT(i, n)), ("oob", z3.UGE(i, n))])
+    if k == 1:
+        ex.ctx.event("panic", "index out of bounds on Vec", callee)
+        raise PathEnd("panic", "Vec index out of bounds")
+    return Ref([vec_elem(ex, v, i)], 0)
+
+
+def s_result_ok(ex, callee, args, dest_ty):
+    r = args[0]
+    if r.variant == "Ok":
+        return Enum("Some", [r.f[0]], "Option")
+    return Enum("None", [], "Option")
+
+
+def s_default_none(ex, callee, args, dest_ty):
+    return Enum("None", [], "Option")
 
 
 def s_parse_ident(ex, callee, args, dest_ty):
@@ -511,6 +657,21 @@ def install(prog):
     S.append((R(r"^HashMap::<.*>::clear$"), s_map_clear))
     S.append((R(r"^core::slice::<impl \[u8\]>::get::<std::ops::Range(From)?<usize>>$"), s_slice_get_range))
     S.append((R(r"^<SectionHeader as ParseAt>::parse_at"), s_parse_at("SectionHeader", SHDR_FIELDS)))
+    S.append((R(r"^<ProgramHeader as ParseAt>::parse_at"), s_parse_at("ProgramHeader", PHDR_FIELDS)))
+    S.append((R(r"^<SysVHashHeader as ParseAt>::parse_at"), s_parse_at("SysVHashHeader", SYSV_FIELDS)))
+    S.append((R(r"^<GnuHashHeader as ParseAt>::parse_at"), s_parse_at("GnuHashHeader", GNUH_FIELDS)))
+    S.append((R(r"^<ParsingIterator<.*> as Iterator>::find::"), s_iter_find))
+    S.append((R(r"^<std::slice::Iter<.*> as Iterator>::find::"), s_iter_find))
+    S.append((R(r"^<std::slice::Iter<.*> as Iterator>::next$"), s_iter_next))
+    S.append((R(r"^<(ParsingIterator|std::slice::Iter)<.*> as IntoIterator>::into_iter$"), s_identity))
+    S.append((R(r"^core::slice::<impl \[u8\]>::is_empty$"), s_u8slice_is_empty))
+    S.append((R(r"^Vec::<\w+>::is_empty$"), s_vec_is_empty))
+    S.append((R(r"^<Vec<\w+> as Deref>::deref$"), s_vec_deref))
+    S.append((R(r"^core::slice::<impl \[\w+\]>::iter$"), s_tslice_iter))
+    S.append((R(r"^core::slice::<impl \[\w+\]>::get::<usize>$"), s_tslice_get))
+    S.append((R(r"^<Vec<\w+> as Index<usize>>::index$"), s_vec_index))
+    S.append((R(r"^<Option<.*> as Default>::default$"), s_default_none))
+    S.append((R(r"^Result::<.*>::ok$"), s_result_ok))
     S.append((R(r"^<CompressionHeader as ParseAt>::parse_at"), s_parse_at("CompressionHeader", CHDR_FIELDS)))
     S.append((R(r"^parse_ident::<E>$|^file::parse_ident"), s_parse_ident))
     S.append((R(r"^FileHeader::<E>::parse_tail$"), s_parse_tail))
